@@ -15,7 +15,7 @@ variable {ρ α β : Type}
 
 theorem bind_ap (m : M ρ α) (f : α → M ρ β) (s : St) :
     Rt.bind m f s = match m s with
-      | .next a s' => f a s' | .done v s' => .done v s' | .pidx s' => .pidx s' | .ub u => .ub u := by
+      | .next a s' => f a s' | .done v s' => .done v s' | .pidx s' => .pidx s' | .palloc s' => .palloc s' | .pcb s' => .pcb s' | .ub u => .ub u := by
   unfold Rt.bind; cases m s <;> rfl
 theorem pure_ap (a : α) (s : St) : (Rt.pure a : M ρ α) s = .next a s := by cases s; rfl
 theorem ret_ap (v : ρ) (s : St) : (Rt.ret v : M ρ α) s = .done v s := by cases s; rfl
@@ -23,7 +23,7 @@ theorem ifM_true (x y : M ρ α) (s : St) : ifM true x y s = x s := by cases s; 
 theorem ifM_false (x y : M ρ α) (s : St) : ifM false x y s = y s := by cases s; rfl
 theorem call_ap {ρ' : Type} (m : M ρ' ρ') (s : St) :
     (Rt.call m : M ρ ρ') s = match m s with
-      | .next a s' => .next a s' | .done v s' => .next v s' | .pidx s' => .pidx s' | .ub u => .ub u := by
+      | .next a s' => .next a s' | .done v s' => .next v s' | .pidx s' => .pidx s' | .palloc s' => .palloc s' | .pcb s' => .pcb s' | .ub u => .ub u := by
   unfold Rt.call; cases m s <;> rfl
 theorem try_ok (a : α) (s : St) : (try_ (.ok a) : M (Rs β) α) s = .next a s := by cases s; rfl
 theorem try_err (s : St) : (try_ (.err : Rs α) : M (Rs β) α) s = .done .err s := by cases s; rfl
@@ -38,9 +38,12 @@ theorem ok_or_some (a : α) (e : ReserveErrorT) (s : St) : ((some a).rs_ok_or e 
 theorem ok_or_none (e : ReserveErrorT) (s : St) : ((none : Option α).rs_ok_or e : M ρ (Rs α)) s = .next .err s := by cases s; rfl
 theorem rs_map_ok (a : α) (f : α → M ρ β) (s : St) :
     ((Rs.ok a).rs_map f : M ρ (Rs β)) s = match f a s with
-      | .next b s' => .next (.ok b) s' | .done v s' => .done v s' | .pidx s' => .pidx s' | .ub u => .ub u := by
+      | .next b s' => .next (.ok b) s' | .done v s' => .done v s' | .pidx s' => .pidx s' | .palloc s' => .palloc s' | .pcb s' => .pcb s' | .ub u => .ub u := by
   simp only [Rs.rs_map, Rt.bind]; cases f a s <;> rfl
 theorem rs_map_err (f : α → M ρ β) (s : St) : ((Rs.err : Rs α).rs_map f : M ρ (Rs β)) s = .next .err s := by cases s; rfl
+
+theorem unwrap_ok (a : α) (s : St) : ((Rs.ok a).rs_unwrap_with_msg : M ρ α) s = .next a s := by cases s; rfl
+theorem unwrap_err (s : St) : ((Rs.err : Rs α).rs_unwrap_with_msg : M ρ α) s = .palloc s := by cases s; rfl
 
 theorem checked_add_ap (a b : Nat) (s : St) : (a.rs_checked_add b : M ρ (Option Nat)) s = .next (checkedAdd a b) s := by cases s; rfl
 theorem max_ap (a b : Nat) (s : St) : (a.rs_max b : M ρ Nat) s = .next (max a b) s := by cases s; rfl
@@ -184,6 +187,8 @@ theorem onRepr_ap (other : Handle) (m : M ρ α) (s : St) :
       | .next a s' => .next a { s' with self := s.self }
       | .done v s' => .done v { s' with self := s.self }
       | .pidx s' => .pidx { s' with self := s.self }
+      | .palloc s' => .palloc { s' with self := s.self }
+      | .pcb s' => .pcb { s' with self := s.self }
       | .ub u => .ub u := by cases s; rfl
 
 theorem arith_add_ap (a b : Nat) (s : St) : (arith_add a b : M ρ Nat) s = if a + b < USIZE then .next (a + b) s else .ub .arith := by
@@ -279,7 +284,7 @@ macro_rules
   | `(tactic| rt_step) => `(tactic| rt_step [bind_ap])
   | `(tactic| rt_step [$ts,*]) => `(tactic| simp only [$ts,*, bind_ap, pure_ap, ret_ap, ifM_true, ifM_false, call_ap,
       try_ok, try_err, assert_true, assert_false, alarm_ap, rs_Ok_ap, rs_Err_ap, rs_Some_ap, ok_or_some, ok_or_none,
-      rs_map_ok, rs_map_err, checked_add_ap, max_ap, min_ap, str_len_ap, str_is_empty_ap, str_boundary_ap,
+      rs_map_ok, rs_map_err, unwrap_ok, unwrap_err, checked_add_ap, max_ap, min_ap, str_len_ap, str_is_empty_ap, str_boundary_ap,
       hb_new_ap, hb_with_capacity_ap, hb_with_additional_ap, hb_with_capacity_from_ap, growth_ap, ib_new_ap, ib_empty_ap,
       from_heap_ap, from_inline_ap, from_static_ap, len_ap, last_byte_ap, is_heap_ap, is_static_ap, as_str_ap, assign_ap,
       read_self_ap, as_heap_ap, as_heap_mut_ap, as_static_ap, as_static_mut_ap, as_inline_mut_ap,
